@@ -443,6 +443,13 @@ func (e *Env) field(n EField) TVal {
 	if stt, et, ok := derefStruct(b.Ty); ok {
 		ss := vc.sorts.SortOf(et)
 		if _, isS := vc.sorts.structs[ss]; !isS {
+			for i := 0; i < stt.NumFields(); i++ {
+				if stt.Field(i).Name() == n.Name {
+					if fn := vc.opaqueEmbedded(et, stt, i); fn != "" && b.T.Sort == SRef {
+						return TVal{T: Term{app(fn, b.T.S), SRef}, Ty: stt.Field(i).Type()}
+					}
+				}
+			}
 			return e.errf("pointer to opaque struct %s", et)
 		}
 		for i := 0; i < stt.NumFields(); i++ {
